@@ -4,6 +4,7 @@
 package c21
 
 import (
+	"context"
 	"encoding/json"
 	"fmt"
 	"hash/fnv"
@@ -152,8 +153,15 @@ func (m *monitor) harvest() []*poolState {
 var yieldSeed atomic.Uint64
 var yieldOn atomic.Bool
 
+// yieldQueues extends the injection to the queue hook points (claim / publish / park windows of the
+// message queues between workers): used by the cancellation phase.
+var yieldQueues atomic.Bool
+
 func yielder(point string) {
-	if !yieldOn.Load() || !strings.HasPrefix(point, "cycle.") {
+	if !yieldOn.Load() {
+		return
+	}
+	if !strings.HasPrefix(point, "cycle.") && !(yieldQueues.Load() && (strings.HasPrefix(point, "mpmc.") || strings.HasPrefix(point, "mpsc."))) {
 		return
 	}
 	n := yieldSeed.Add(0x9E3779B97F4A7C15)
@@ -201,6 +209,20 @@ type doc
 			t = append(t, tk("group:g0", "member", "user:a"), tk("group:g0", "member", fmt.Sprintf("group:g%d#member", n))) // closes the cycle
 			return t
 		}, "doc", "viewer", []string{"user:a", "user:b"}},
+		{"wide-cyclic-burst", `model
+  schema 1.1
+type user
+type group
+  relations
+    define member: [user, group#member]`, func(n int) []*openfgav1.TupleKey {
+			// many two-level groups: one burst of 8n objects enters the cyclic edge of group#member at once
+			var t []*openfgav1.TupleKey
+			for i := 0; i < 8*n; i++ {
+				t = append(t, tk(fmt.Sprintf("group:leaf%d", i), "member", "user:a"))
+				t = append(t, tk(fmt.Sprintf("group:top%d", i), "member", fmt.Sprintf("group:leaf%d#member", i)))
+			}
+			return t
+		}, "group", "member", []string{"user:a", "user:b"}},
 		{"recursive-ttu-chain", `model
   schema 1.1
 type user
@@ -528,6 +550,49 @@ func run(c *vk.Ctx) {
 					map[string]any{"job": j.name, "tuning": t.name, "model": rm.DSL(), "stored": gen.TupleStrings(j.stored), "contextual": gen.TupleStrings(j.ctxl)})
 			}
 		}
+		// cancellation phase: the client gives up 0.2-13 ms into the request while yields widen the windows
+		// around queue sends and the cycle group's protocol; teardown must still complete: the call
+		// returns and no pipeline goroutine outlives it
+		for rep := 0; rep < c.Pick(6, 30) && !hung; rep++ {
+			t := tunes[(ji+rep)%len(tunes)]
+			yieldOn.Store(true)
+			yieldQueues.Store(true)
+			yieldSeed.Store(uint64(c.SubSeed(fmt.Sprintf("yc-%d-%d", ji, rep))))
+			after := []time.Duration{200 * time.Microsecond, time.Millisecond, 2 * time.Millisecond, 3 * time.Millisecond, 5 * time.Millisecond, 8 * time.Millisecond, 13 * time.Millisecond}[(ji+rep)%7]
+			ctx, cancel := context.WithCancel(context.Background())
+			go func() { time.Sleep(after); cancel() }()
+			returned := drive.Watch(hangAfter(), func() {
+				t.s.ListObjects(drive.Req{Store: store, Object: j.typ, Relation: j.rel, User: j.user, Contextual: j.ctxl, Context: ctx})
+			})
+			cancel()
+			yieldQueues.Store(false)
+			mon.harvest()
+			c.Count("cancelled_pipeline_runs", 1)
+			left := 0
+			if returned {
+				// bounded wait for the request's goroutines to go away
+				for w := 0; w < 250; w++ {
+					if left = pipelineGoroutines(); left == 0 {
+						break
+					}
+					time.Sleep(20 * time.Millisecond)
+				}
+			}
+			if !returned || left > 0 {
+				buf := make([]byte, 1<<22)
+				dump := string(buf[:runtime.Stack(buf, true)])
+				what := fmt.Sprintf("ListObjects(%s, %s, %s) on the pipeline (%s), cancelled by the client after %s under yield injection: ", j.typ, j.rel, j.user, t.name, after)
+				if !returned {
+					what += fmt.Sprintf("did not return within %s — teardown never completes", hangAfter())
+				} else {
+					what += fmt.Sprintf("%d pipeline goroutines are still alive 5 s after it returned — teardown never completes", left)
+				}
+				c.Violation(classifyHang(rm, j), "cancel-teardown|"+kind, what, map[string]any{"job": j.name, "tuning": t.name, "model": rm.DSL(), "stored": gen.TupleStrings(j.stored), "cancel_after": after.String(),
+					"goroutines_in_DrainSender": strings.Count(dump, "worker.DrainSender"), "goroutines_parked_in_cycle_wait": strings.Count(dump, "track.(*StatusPool).Wait")})
+				hung = true
+			}
+		}
+		yieldQueues.Store(false)
 		if ji%10 == 0 {
 			c.Sample(map[string]any{"job": j.name, "model": rm.DSL(), "tuples": len(j.stored), "request": []string{j.typ, j.rel, j.user}, "reference_set_size": len(want)})
 		}
@@ -603,3 +668,16 @@ func classifyHang(rm *ref.Model, j job) string {
 }
 
 var _ = rand.Int
+
+// pipelineGoroutines counts goroutines with a frame of the ListObjects pipeline package.
+func pipelineGoroutines() int {
+	buf := make([]byte, 1<<22)
+	dump := string(buf[:runtime.Stack(buf, true)])
+	n := 0
+	for _, g := range strings.Split(dump, "\n\n") {
+		if strings.Contains(g, "internal/listobjects/pipeline") {
+			n++
+		}
+	}
+	return n
+}
